@@ -69,3 +69,8 @@ func NoCrash()
 func GuardedBy(m interface{}, mu interface{})
 func Unguard()
 func LocksHeld() int
+
+// URLParts declares how the harness assembled uri (scheme "://" [user "@"]
+// hostport rest) so that url.Parse of a string with symbolic bytes can return
+// the pieces (see engine/urlmodel.go). No-op for concrete strings and in replay.
+func URLParts(uri, scheme, user string, hasUser bool, hostport, rest string)
